@@ -43,16 +43,17 @@ type Rec struct {
 
 // Deviation kinds for SSH devices.
 const (
-	DevError   = "error"      // device answers with its error text
-	DevGarbage = "garbage"    // unexpected output / garbled echo
-	DevStall   = "stall"      // no answer (time-out)
-	DevClose   = "close"      // connection closed
-	DevNoOK    = "no-ok"      // write memory without [OK]
-	DevExit1   = "exit1"      // Linux: silent non-zero exit status
-	DevBanner  = "banner"     // IOS reload banner (see BannerSpec)
-	DevWarnErr = "warn+error" // ASA: the benign warning this command class can produce, followed by the error text
-	DevInfoErr = "info+error" // ASA: an INFO: line followed by the error text
-	DevBadConf = "bad-config" // the configuration the device prints holds a (legal) construct the tool's parser rejects
+	DevError   = "error"       // device answers with its error text
+	DevGarbage = "garbage"     // unexpected output / garbled echo
+	DevStall   = "stall"       // no answer (time-out)
+	DevClose   = "close"       // connection closed
+	DevNoOK    = "no-ok"       // write memory without [OK]
+	DevExit1   = "exit1"       // Linux: silent non-zero exit status
+	DevBanner  = "banner"      // IOS reload banner (see BannerSpec)
+	DevWarnErr = "warn+error"  // ASA: the benign warning this command class can produce, followed by the error text
+	DevInfoErr = "info+error"  // ASA: an INFO: line followed by the error text
+	DevError1  = "error-1line" // the device answers with a one-line error text (semantic rejections look like this)
+	DevBadConf = "bad-config"  // the configuration the device prints holds a (legal) construct the tool's parser rejects
 )
 
 type BannerSpec struct {
@@ -83,6 +84,7 @@ type SSH struct {
 	closed         bool
 	phase          string // login, enable-pass, cli, config, confirm-reload, save-q
 	mode           string // "", "config"
+	curDev         string // deviation of the line being answered
 	modified       bool   // running config differs from startup (IOS reload question)
 	PrepNoop       bool   // IOS: the session-preparation commands change nothing
 	ReloadPending  bool
@@ -262,6 +264,10 @@ func (s *SSH) line(l string) {
 	s.point++
 	class := s.classify(l)
 	dev := s.Dev[s.point]
+	s.curDev = dev
+	if dev == DevError1 {
+		dev = DevError // handled like an error answer, with the one-line text (errText)
+	}
 	// generic deviations
 	switch dev {
 	case DevStall:
@@ -340,6 +346,15 @@ func (s *SSH) motd() string { return "" }
 
 // devText returns the device's own error phrasing.
 func (s *SSH) errText() string {
+	if s.curDev == DevError1 {
+		switch s.Flavor {
+		case "asa":
+			return "ERROR: object-group does not exist"
+		case "ios":
+			return "%Invalid next hop address (it's this router)\n"
+		}
+		return "RTNETLINK answers: File exists"
+	}
 	switch s.Flavor {
 	case "asa":
 		return "        ^\nERROR: % Invalid input detected at '^' marker."
